@@ -5,3 +5,4 @@ import OQuPyVerif.Props.C04
 import OQuPyVerif.Model.Proto
 import OQuPyVerif.Model.ProtoQI
 import OQuPyVerif.Props.C06
+import OQuPyVerif.Props.C01
